@@ -76,6 +76,18 @@ def abandoned(tier, rng):
                 c.add(b"BDAT %d LAST\r\n" % size + tail)
                 for seg in ("one", "line"):
                     cases.append(c.case(seg=seg, rng=rng) + "\tTAG=incomplete:0")
+        # the LAST chunk's command line itself is cut: `BDAT 0 LAST` (or `BDAT 3 LAST`) without its line feed, then the end of the
+        # connection or the idle timeout — the chunk was never announced in full, the message is incomplete
+        for last in (b"BDAT 0 LAST", b"BDAT 0 LAST\r", b"BDAT 3 LAST"):
+            for how in ("eof", "timeout"):
+                c = g.Conv(dict(lmtp=lm, lmtpsess=rng.choice([0, 1]) if lm else 0, rt=int(how == "timeout")))
+                P.envelope(c, bool(lm))
+                c.add(b"BDAT 6\r\nHello ", DATA=g.ddec(ret="prop")); c.add(b"BDAT 0\r\n"); c.add(last)
+                f = c.case(seg=rng.choice(["one", "line"]), rng=rng).split("\t")
+                if how == "timeout":
+                    segs, end = f[3].split(";")
+                    f[3] = segs + ",TO;" + end
+                cases.append("\t".join(f) + "\tTAG=incomplete:0")
     return cases
 
 
